@@ -7,6 +7,7 @@ package main
 import (
 	"fmt"
 	"go/types"
+	"math/big"
 	"strings"
 
 	"golang.org/x/tools/go/ssa"
@@ -60,7 +61,7 @@ var assumptionText = map[string]string{
 	"A-SEP":    "distinct pointer-typed inputs (and pointer fields of inputs) reference distinct objects (tree-shaped inputs)",
 	"A-APPEND": "append is modelled as value-level concatenation; sharing of spare capacity between an append result and its argument is not modelled; its allocation is counted amortised (3x the appended bytes)",
 	"A-BIN":    "encoding/binary: big-endian fixed-size Read/Write, Uint16/32, PutUint16/32 behave as documented; a short binary.Read leaves the target unmodified and consumes what was there",
-	"A-BUF":    "bytes.Buffer (Read, ReadString, Bytes, Len, Reset, NewBuffer), bytes.IndexByte, strings.Join/Index, hex.EncodeToString behave as documented",
+	"A-BUF":    "bytes.Buffer (Read, ReadByte, ReadString, Next, Bytes, String, Len, Reset, Write, WriteByte, WriteString, NewBuffer), bytes.IndexByte, strings.Join/Index, hex.EncodeToString behave as documented",
 	"A-POOL":   "bytebufferpool.Get returns an exclusively owned empty buffer; ByteBuffer.Write/WriteString/WriteByte append and never fail; after Put the buffer content is arbitrary",
 	"A-FMT":    "fmt.Errorf/errors.New return non-nil errors and do not panic",
 	"A-LOG":    "calls into the repository's logger package (other than Fatal/Panic) and fmt/log print functions do not change any value the library computes and do not panic",
@@ -206,6 +207,55 @@ func init() {
 			x.aliasOf[s.Reg] = src
 		}
 		return one(s)
+	})
+	reg("bytes.(*Buffer).ReadByte", func(x *Exec, st *State, fr *Frame, in ssa.Instruction, callee *ssa.Function, args []Value) []Value {
+		x.assume("A-BUF")
+		b := x.needPtr(st, in, args[0])
+		un := bufUnread(x, st, b)
+		ok := Gt(Len(un), IntLit(0))
+		err := x.condErr(st, "readbyte", ok, TTrue) // empty buffer: (0, io.EOF)
+		var c *Term
+		if x.bv {
+			c = Ite(ok, App("atb", SBV(8), un, IntLit(0)), BVLit(big.NewInt(0), 8))
+		} else {
+			c = Ite(ok, At(un, IntLit(0)), IntLit(0))
+		}
+		nu := Fresh("unread", SBytes)
+		st.Assume(Eq(nu, Ite(ok, Drop(un, IntLit(1)), un)))
+		setBufUnread(x, st, b, nu)
+		return []Value{c, err}
+	})
+	reg("bytes.(*Buffer).Next", func(x *Exec, st *State, fr *Frame, in ssa.Instruction, callee *ssa.Function, args []Value) []Value {
+		x.assume("A-BUF")
+		b := x.needPtr(st, in, args[0])
+		n := x.toInt(args[1].(*Term))
+		un := bufUnread(x, st, b)
+		m := Fresh("n.next", SInt)
+		st.Assume(Eq(m, Max(IntLit(0), Min(n, Len(un)))))
+		s := x.newByteSlice(st, Take(un, m), "bufnext")
+		// a view of the buffer's backing store (valid until the next read or write): not memory the caller of Next owns
+		s.Reg.Fresh = false
+		if src, ok := x.bufSrc[b.Obj]; ok {
+			x.aliasOf[s.Reg] = src
+		}
+		nu := Fresh("unread", SBytes)
+		st.Assume(Eq(nu, Drop(un, m)))
+		setBufUnread(x, st, b, nu)
+		return one(s)
+	})
+	reg("bytes.(*Buffer).String", func(x *Exec, st *State, fr *Frame, in ssa.Instruction, callee *ssa.Function, args []Value) []Value {
+		x.assume("A-BUF")
+		b := x.needPtr(st, in, args[0])
+		un := bufUnread(x, st, b)
+		x.countAllocN(st, Len(un))
+		return one(un)
+	})
+	reg("bytes.(*Buffer).WriteByte", func(x *Exec, st *State, fr *Frame, in ssa.Instruction, callee *ssa.Function, args []Value) []Value {
+		x.assume("A-BUF")
+		b := x.needPtr(st, in, args[0])
+		c := x.toInt(args[1].(*Term))
+		setBufUnread(x, st, b, Cat(bufUnread(x, st, b), U8(c)))
+		return one(nilErr())
 	})
 	reg("bytes.(*Buffer).Len", func(x *Exec, st *State, fr *Frame, in ssa.Instruction, callee *ssa.Function, args []Value) []Value {
 		x.assume("A-BUF")
